@@ -48,7 +48,7 @@ def outcome_class(exc):
 
 
 @st.composite
-def store_program(draw, min_steps=6, max_steps=25, etag_rate=3, uid_pool=None, with_cards=True):
+def store_program(draw, min_steps=6, max_steps=25, etag_rate=3, uid_pool=None, with_cards=True, two_handles=False):
     names = [draw(gen.member_name(".ics", fancy=False)) for _ in range(2)] + [draw(gen.member_name(".ics", fancy=True)) for _ in range(2)]
     if with_cards:
         names.append(draw(gen.member_name(".vcf", fancy=False)))
@@ -74,6 +74,10 @@ def store_program(draw, min_steps=6, max_steps=25, etag_rate=3, uid_pool=None, w
             steps.append({"op": "delete", "name": name, "etag": ek})
         else:
             steps.append({"op": "reopen"})
+        if two_handles and steps[-1]["op"] != "reopen" and draw(st.integers(0, 2)) == 0:
+            # this call goes through a second store object opened on the same directory (another server
+            # process): whatever each object remembers between calls, the answers are those of one history
+            steps[-1]["h"] = 1
     return {"steps": steps}
 
 
@@ -118,6 +122,11 @@ def run_store_program(program, backends=BACKENDS):
     try:
         for b in backends:
             stores[b] = open_store(b, os.path.join(scratch, b), create=True)
+        second = {}
+        if any(st_.get("h") for st_ in program["steps"]):
+            for b in backends:
+                second[b] = open_store(b, os.path.join(scratch, b)) if b != "mem" else stores[b]
+            stats["two-handles"] += 1
         model = {}  # name -> raw
         etags = {b: {} for b in backends}  # backend -> name -> etag
         hist = {b: collections.defaultdict(list) for b in backends}
@@ -126,6 +135,8 @@ def run_store_program(program, backends=BACKENDS):
                 for b in backends:
                     if b != "mem":
                         stores[b] = open_store(b, os.path.join(scratch, b))
+                        if second:
+                            second[b] = open_store(b, os.path.join(scratch, b))
                 stats["reopen"] += 1
                 _audit(i, stores, model, etags, hist, backends)
                 continue
@@ -148,11 +159,12 @@ def run_store_program(program, backends=BACKENDS):
                     arg = "3" * 40
                 exc = None
                 ret = None
+                sobj = second[b] if (step.get("h") and second) else stores[b]
                 try:
                     if step["op"] == "put":
-                        ret = stores[b].import_one(name, ctype_of(name), [body_of(step)], replace_etag=arg)
+                        ret = sobj.import_one(name, ctype_of(name), [body_of(step)], replace_etag=arg)
                     else:
-                        stores[b].delete_one(name, etag=arg)
+                        sobj.delete_one(name, etag=arg)
                 except Exception as e:  # classified below
                     exc = e
                 outs[b] = (outcome_class(exc), arg, cur, ret, exc)
